@@ -774,8 +774,10 @@ func (fr *Frame) matchAbs(s Val, j string, p Val) string {
 		}
 		return sAnd(conj...)
 	}
+	// symbolic-length pattern: quantify over the absolute haystack index so that the inferred
+	// trigger is (select A q) (the relative form needs arithmetic matching and was slow)
 	q := c.fresh("qm")
-	return "(forall ((" + q + " Int)) (=> (and (<= 0 " + q + ") (< " + q + " " + p.C[2] + ")) (= (select " + s.C[0] + " (+ " + j + " " + q + ")) (select " + p.C[0] + " (+ " + p.C[1] + " " + q + ")))))"
+	return "(forall ((" + q + " Int)) (! (=> (and (<= " + j + " " + q + ") (< " + q + " (+ " + j + " " + p.C[2] + "))) (= (select " + s.C[0] + " " + q + ") (select " + p.C[0] + " (- (+ " + p.C[1] + " " + q + ") " + j + ")))) :pattern ((select " + s.C[0] + " " + q + "))))"
 }
 
 // matchAt: s[k : k+len(p)] == p
